@@ -17,19 +17,23 @@ variable {L : Type} [Inhabited L] [DecidableEq L]
 /-- invariant of reachable states used by the equality theorems -/
 def Reach (g : G L) : Prop := Inv g ∧ KeysNodup g
 
+omit [DecidableEq L] in
 theorem reach_dRun (lb : Bool) (n : Nat) (ops : List (SOp L)) : Reach (dRun (G.new lb n : G L) ops) :=
   ⟨C01_inv_reachable lb n ops, keysNodup_dRun _ ops (keysNodup_new lb n)⟩
 
+omit [DecidableEq L] in
 theorem hasEdgeRaw_of_absD_eq {g h : G L} (he : absD g = absD h) (i j : Nat) : g.hasEdgeRaw i j = h.hasEdgeRaw i j := by
   have := congrArg (fun a => (a.lab i j).isSome) he
   simp only [absD] at this
   by_cases h1 : g.hasEdgeRaw i j = true <;> by_cases h2 : h.hasEdgeRaw i j = true <;> simp_all
 
+omit [DecidableEq L] in
 theorem mem_edgeSeq_iff (g : G L) (hg : Inv g) (e : Edge) : e ∈ g.edgeSeq ↔ g.hasEdgeRaw e.1 e.2 = true := by
   obtain ⟨i, j⟩ := e
   rw [← dEdges_eq g hg.len]
   exact C08_mem_dEdges g hg.len i j
 
+omit [DecidableEq L] in
 /-- in a labelled reachable state the label store has exactly one entry per edge -/
 theorem labels_length_eq (g : G L) (hr : Reach g) (hl : g.labelled = true) : g.labels.length = g.edgeNumber := by
   obtain ⟨hg, hk⟩ := hr
@@ -41,6 +45,7 @@ theorem labels_length_eq (g : G L) (hr : Reach g) (hl : g.labelled = true) : g.l
   have h1 : g.labels.length = (AMap.keys g.labels).length := by simp [AMap.keys]
   rw [h1, hp.length_eq, length_edgeSeq g hg.len, hg.count]
 
+omit [DecidableEq L] in
 theorem edgeNumber_of_absD_eq {g h : G L} (hg : Inv g) (hh : Inv h) (he : absD g = absD h) :
     g.edgeNumber = h.edgeNumber := by
   rw [C01_edgeNumber g hg, C01_edgeNumber h hh, he]
